@@ -61,8 +61,7 @@ class InstanceGenerator(abc.ABC):
             num_jobs = (num_jobs, num_jobs)
         if isinstance(num_machines, int):
             num_machines = (num_machines, num_machines)
-        if seed is not None:
-            random.seed(seed)
+        self.rng = random.Random(seed)
 
         self.num_jobs_range = num_jobs
         self.num_machines_range = num_machines
